@@ -222,6 +222,8 @@ def _exec(op, kv):
         return _cluster(kv)
     if op == "CALL":
         return _call(kv)
+    if op == "INDELFILE":
+        return _indelfile(kv)
     return "bad-op"
 
 
@@ -391,6 +393,30 @@ def _show_call(c):
 def _cluster(kv):
     from write_indel_files import cluster_indels
     return ";".join(_show_call(c) for c in cluster_indels(_calls(kv.get("CALLS", "")), int(kv["blur"])))
+
+
+def _indelfile(kv):
+    """the real writer on the dictionary the finders build ({'insertion': [...], 'deletion': [...]}),
+    then the data lines of the file it wrote"""
+    import os
+    import tempfile
+    from fractions import Fraction
+    from write_indel_files import write_indel_file
+    ins, dels = _calls(kv.get("INS", "")), _calls(kv.get("DEL", ""))
+    fd, path = tempfile.mkstemp(suffix=".txt", dir=os.environ.get("VERIF_TMP"))
+    os.close(fd)
+    try:
+        write_indel_file({"insertion": ins, "deletion": dels}, "x.xmap", path)
+        lines = [l.rstrip("\n") for l in open(path)]
+    finally:
+        os.remove(path)
+    assert lines[0] == "#x.xmap" and lines[1].startswith("#Type"), lines[:2]
+    out = []
+    for l in lines[2:]:
+        f = l.split("\t")
+        assert len(f) == 9, l
+        out.append(f"{1 if f[0] == 'insertion' else 0}:{int(f[1])}:{int(f[2])}:{int(f[3])}:{f[4]}:{int(f[5])}:{int(f[6])}:{rat(Fraction(f[7]))}:{int(f[8])}")
+    return ";".join(out)
 
 
 def _call(kv):
